@@ -546,6 +546,24 @@ def perturb_after(case, cut, rng):
                 vals = set(col[1])
                 kind = "bool" if vals <= {hx(0.0), hx(1.0), "nan"} else "num"
                 col[1] = [x if idx[r] <= tcut else garble(x, kind) for r, x in enumerate(col[1])]
+        elif a[0] == "trans":
+            # blotter rows stamped after the cut: other quantities and prices (never zero / NaN)
+            for row in a[1]:
+                if row[0] > tcut:
+                    row[2] = hx(float.fromhex(row[2]) * rng.choice([0.5, 2.0, -1.0]) + rng.choice([-3.0, 1.0, 4.0]))
+                    row[3] = garble(row[3], "price")
+        elif a[0] == "risk":
+            for m, idx, cols in a[1]:
+                for col in cols:
+                    col[1] = [x if idx[r] <= tcut else garble(x, "num") for r, x in enumerate(col[1])]
+        elif a[0] in ("dates", "roll"):
+            # close / roll dates after the cut move to another date after the cut; roll factors change too
+            later = [x for x in case["dates"] if x > tcut]
+            for row in a[1]:
+                if row[1] > tcut and later:
+                    row[1] = rng.choice(later)
+                    if a[0] == "roll":
+                        row[3] = hx(rng.choice([0.25, 1.5, 3.0]))
     d["name"] = case["name"] + "_p%d" % cut
     return d
 
